@@ -951,11 +951,11 @@ func TestC05(t *testing.T) {
 
 	c05TickLines(tr, rng, scale(3000, 60000))
 	c05PoolCapLines(tr)
-	c05PoolLines(tr, rng, scale(1500, 30000))
-	c05RangedLines(tr, rng, scale(400, 20000))
+	c05PoolLines(tr, rng, scale(1200, 30000))
+	c05RangedLines(tr, rng, scale(300, 20000))
 
 	g := &c05Gen{rng: rng}
-	books := scale(40000, 600000)
+	books := scale(36000, 600000)
 	for b := 0; b < books; b++ {
 		var os []*c05Order
 		if rng.Chance(6) {
